@@ -17,15 +17,19 @@ META = {
               "result, the persisted node-id table / free list / counters and a select-* read of all ids after every "
               "batch of randomised histories on real shards are validated line by line against the TLA+ reference "
               "model (TLC is the oracle). Model checking of the design plus conformance of sampled executions; not a proof "
-              "for all histories."),
-        note=("trusted: TLC, bbolt, msgpack, the harness' canonicaliser; histories are sampled (12 ids, batches <= 6), "
-              "update batches never repeat an id")),
+              "for all histories. Concurrent insert requests sharing an id and concurrent write requests on disjoint ids "
+              "are judged against every order (InsertRace / WriteRace); the persisted inverted indexes, vector keys and text "
+              "index are judged as functions of the stored documents after every batch (TInvIx, TVecKeys, TTextIx)."),
+        note=("trusted: TLC, bbolt, msgpack, the harness' canonicaliser; histories are sampled (12 ids incl. the all-zero and "
+              "all-ones UUID, batches <= 6); update batches repeat an id only on configurations without text / graph indexes")),
     "C02": dict(
         technique="TLA+ filter semantics (Docs.tla EvalQ) as oracle + TLC trace validation of a full operator x boundary-value panel",
         design_ref="DESIGN.md 5 C02",
         text=("The filter semantics is a TLA+ operator checked for algebraic sanity on all small assignments (FilterMC); on "
               "real shards the complete operator x boundary-value panel and random _and/_or trees are evaluated after "
-              "histories that change/add/remove the indexed fields, and TLC recomputes each answer from the model state."),
+              "histories that change/add/remove the indexed fields, and TLC recomputes each answer from the model state; "
+              "3000 composite filters of 16..64 leaves end every history, and the persisted index buckets are compared with "
+              "what the stored documents determine (TInvIx)."),
         note="trusted: Go stdlib for the pool relations (ToLower, bytes.Compare, HasPrefix); queries limited to those passing validation"),
 }
 
@@ -42,12 +46,16 @@ META.update({
         design_ref="DESIGN.md 5 C04",
         text=("Every flat search answer (warm, after eviction, cold on a copy of the file) is checked by TLC to be the exact "
               "k nearest neighbours within the filter with the metric's distances, for all six metrics."),
-        note="trusted: TLC, integer-valued vectors; product / learned-binary quantisers not exercised"),
+        note=("trusted: TLC, integer-valued vectors; with a trained product / learned-binary quantiser the quantised distance is "
+              "not recomputed: warm, cold and concurrent answers are compared with each other (FlatPair, FlatBurst) and the "
+              "key-level life cycle of the store is model-checked (Quant.tla) and judged on bucket dumps (TVecKeys)")),
     "C05": dict(
         technique="TLA+ tf-idf model in scaled integers (Docs.tla TextOK) + TLC trace validation",
         design_ref="DESIGN.md 5 C05",
         text=("TLC recomputes match sets, corpus size, document frequencies and tf-idf scores from the model state for every "
-              "text query issued after histories that insert / rewrite / blank / delete text fields, and checks order and cut."),
+              "text query issued after histories that insert / rewrite / blank / delete text fields, and checks order and cut; "
+              "the persisted index (corpus size, document entries, term sets) is compared with what the stored documents determine "
+              "after every batch (TTextIx)."),
         note="trusted: bleve's standard analyser (called directly by the harness), log10 table from Go's math library"),
     "C10": dict(
         technique="TLA+ well-formedness invariants (ShardTrace.tla TGraph, Shard.tla ShardWF) evaluated by TLC on persisted-state dumps after every batch",
